@@ -10,15 +10,12 @@ import (
 // C11 — sum-copy stores the sum; sum-diff agrees with it.
 
 func VerifC11_SumCopy() {
-	ls := []string{"1s:2s"}
-	if vrt.Tier() == 1 {
-		ls = vrtCmdLayouts()
-	}
-	vrtC11SumCopy(ls, 2, true)
+	vrtC11SumCopy([]string{"1s:2s"}, 2, true)
 }
 
 // VerifC11_SumCopy2: the 2-level layout with one source file and an existing destination
-// (single-archive selections in the quick tier).
+// (every archive selection; for the all-archive selection the destination is a concrete
+// never-written file).
 func VerifC11_SumCopy2() {
 	vrtC11SumCopy([]string{"1s:2s,2s:4s"}, 1, false)
 }
@@ -89,9 +86,7 @@ func vrtC11SumCopy(ls []string, nfMax int, allowAbsent bool) {
 		vrt.Assert(len(dv) == len(wv), "C11 same window shape")
 		for k := range wv {
 			if k < len(dv) {
-				vrt.Known("C11-propagation-overwrites-coarser", aid == ArchiveIDAll && i > 0)
 				vrt.Assert(vrtSameValue(dv[k], wv[k]), "C11 destination holds exactly the sum (NaN included)")
-				vrt.KnownOff("C11-propagation-overwrites-coarser")
 			}
 		}
 	}
@@ -99,9 +94,7 @@ func vrtC11SumCopy(ls []string, nfMax int, allowAbsent bool) {
 	// consequently sum-diff over the same window is clean
 	d := &SumDiffCommand{SrcBase: base, SrcPattern: "*.wsp", DestBase: dbase, DestRelPath: "sum.wsp", ArchiveID: aid, From: from}
 	e4 := d.sumDiffItem("item1", vrt.Writer())
-	vrt.Known("C11-propagation-overwrites-coarser", aid == ArchiveIDAll && na > 1)
 	vrt.Assert(e4 == nil, "C11 sum-diff after sum-copy is clean")
-	vrt.KnownOff("C11-propagation-overwrites-coarser")
 }
 
 // VerifC11_SumDiff: sum-diff reports a difference exactly when the destination deviates from
@@ -117,20 +110,26 @@ func VerifC11_SumDiff() {
 	vrtCmdAssumeClock(h, now)
 	vrt.SetClock(uint32(now))
 	nf := 1
-	if vrt.Tier() == 1 {
+	if vrt.Tier() == 1 && na == 1 {
 		nf = 1 + vrt.Choose("files", 2)
 	}
+	aid := vrtArchiveChoice(na)
+	allOnMulti := aid == ArchiveIDAll && na > 1
 	names := []string{"a.wsp", "b.wsp"}
 	var paths []string
 	for f := 0; f < nf; f++ {
-		img, _ := vrtCmdInvImage(h, vrt.N("f", f), now)
+		var img []byte
+		if f == 0 {
+			img, _ = vrtCmdInvImage(h, vrt.N("f", f), now)
+		} else {
+			img = vrtCmdSecondImage(h, vrt.N("f", f), now, allOnMulti)
+		}
 		paths = append(paths, vrt.TempFile("base/item1/"+names[f], img))
 	}
 	base := filepath.Dir(filepath.Dir(paths[0]))
-	dimg, _ := vrtCmdInvImage(h, "d", now)
+	dimg := vrtCmdSecondImage(h, "d", now, allOnMulti)
 	dp := vrt.TempFile("dst/item1/sum.wsp", dimg)
 	dbase := filepath.Dir(filepath.Dir(dp))
-	aid := vrtArchiveChoice(na)
 	from := vrtCmdInstant(h, "from")
 	vrt.Assume(from <= now)
 	destAbsent := false
